@@ -21,6 +21,15 @@ package lmd
 //     until the answer is written): data queries with reference columns, Stats, by-group tables, virtual
 //     columns reading other tables, WaitTrigger/WaitCondition queries (whose goroutines call the update
 //     functions concurrently with the update loop).
+//   * the backends carry comments and downtimes on hosts and services: fixed ones from the start (never removed; the
+//     first host and the first service always have both) and, unless the scenario says static_cd, further ones that
+//     come and go. Clients ask for `comments`, `downtimes`, `comments_with_info`, `downtimes_with_info` of hosts and
+//     services directly (virtcols, svclists), through reference columns (services.host_*, comments/downtimes.host_* and
+//     .service_*) and through the by-group tables, while the update loop reloads everything (rebuild, restart = the core
+//     got a new program_start, downup with stale timeout): every served id list is recorded with the ids the backend
+//     had attached to that object during the whole run (must) and at some time (may).
+//   * client kinds probe<N> send the requests the generated lock coverage matrix (c14_gen.go) reports as reading a
+//     table they do not lock (scenario field probes; empty on a tree whose obligation holds).
 // Observed: decoded stamp vectors of all response rows, generation/epoch sets per response+peer+table,
 // Stats counters, malformed/incomplete answers, go-deadlock reports, panics. The race detector's own
 // report goes to stderr and is parsed by the caller.
@@ -59,16 +68,23 @@ type c14Scenario struct {
 	Epochs     bool       `json:"epochs"`   // only whole-table updaters: every response shows one epoch per peer table
 	Parallel   bool       `json:"parallel"` // MaxParallelPeerConnections > 1
 	KeepAlive  bool       `json:"keepalive"`
-	Observed   []string   `json:"observed,omitempty"` // filled in by the caller after the run (ignored here)
+	// StaticCD: the comments and downtimes of the backends never change: every served comment / downtime list must be
+	// exactly the backend's. Otherwise entries come and go: a list must hold every entry that was attached the whole
+	// time and nothing that was never attached to the object.
+	StaticCD bool `json:"static_cd"`
+	// Probes: requests the generated lock coverage matrix reports as reading a table they do not lock (client kinds
+	// "probe0", "probe1", ... send them, so that the race detector may show the concurrent access)
+	Probes   []c14Probe `json:"probes,omitempty"`
+	Observed []string   `json:"observed,omitempty"` // filled in by the caller after the run (ignored here)
 }
 
 var c14ClientKinds = []string{"hosts", "hostsfilter", "services", "stats", "sums", "hostsbygroup", "servicesbygroup", "servicesbyhostgroup",
 	"waithost", "waitservice", "waittable", "waitmet", "waitgroups", "virtcols", "comments", "downtimes", "hostgroups", "servicegroups",
-	"timeperiods", "sites", "status", "statsref", "filterref", "sortref"}
+	"timeperiods", "sites", "status", "statsref", "filterref", "sortref", "svclists", "comlists", "downlists", "bygrouplists"}
 
 var c14PartialKinds = map[string]bool{"waithost": true, "waitservice": true, "waittable": true, "waitmet": true, "waitgroups": true}
 
-var c14UpdaterKinds = []string{"delta", "periodic", "minute", "full", "scan", "rebuild", "comments", "downup", "broken", "idle"}
+var c14UpdaterKinds = []string{"delta", "periodic", "minute", "full", "scan", "rebuild", "restart", "comments", "downup", "broken", "idle"}
 
 var c14MutatorKinds = []string{"row", "row", "row", "epoch", "comment", "downtime", "timeperiod", "group"}
 
@@ -90,6 +106,11 @@ type c14Result struct {
 	VecTotal   int              `json:"vec_total"`
 	Torn       []map[string]any `json:"torn"`  // first few torn rows with query kind and raw row
 	Mixed      []string         `json:"mixed"` // first few mixed generation/epoch sets
+	// ListObs: distinct [served ids, ids that must be there, ids that may be there] of the comment / downtime lists of
+	// hosts and services in the answers (violations first, capped); ListBad: the first few violations in words
+	ListObs   [][][]int64 `json:"list_obs"`
+	ListBad   []string    `json:"list_bad"`
+	ListTotal int         `json:"list_total"`
 }
 
 // ---- stamps -------------------------------------------------------------------------------------
@@ -283,6 +304,68 @@ type c14Peer struct {
 	nextID  int64   // comments/downtimes ids (mutator goroutine only)
 	comIDs  []int64 // mutator goroutine only
 	downIDs []int64
+	svcKeys [][2]string // the services of the backend (host, description)
+
+	// what the backend's comments (0) / downtimes (1) attach to each host ("host") and service ("host;description"):
+	// must = attached from the start and never removed, may = must + everything the mutator ever attached
+	cdMu   sync.Mutex
+	cdMust [2]map[string]map[int64]bool
+	cdMay  [2]map[string]map[int64]bool
+	cdText [2]map[int64][2]string // id -> author, comment
+}
+
+func c14CDKey(host, svc string) string {
+	if svc == "" {
+		return host
+	}
+
+	return host + ";" + svc
+}
+
+func c14CommentRow(id int64, host, svc, author, text string) []interface{} {
+	isSvc, typ := 0.0, 1.0
+	if svc != "" {
+		isSvc, typ = 1.0, 2.0
+	}
+
+	return []interface{}{float64(id), host, svc, author, text, float64(1700000000 + id), 1.0, typ, isSvc, 1.0, 0.0, 0.0, 0.0}
+}
+
+func c14DowntimeRow(id int64, host, svc, author, text string) []interface{} {
+	isSvc, typ := 0.0, 2.0
+	if svc != "" {
+		isSvc, typ = 1.0, 1.0
+	}
+
+	return []interface{}{float64(id), host, svc, author, text, float64(1700000000 + id), float64(1700000100 + id), float64(1700009000 + id), 8900.0, 1.0, 0.0, typ, isSvc}
+}
+
+// attach records an entry of the backend (before it is added there)
+func (cp *c14Peer) attach(which int, id int64, host, svc, author, text string, permanent bool) {
+	key := c14CDKey(host, svc)
+	cp.cdMu.Lock()
+	defer cp.cdMu.Unlock()
+	if cp.cdMay[which][key] == nil {
+		cp.cdMay[which][key] = map[int64]bool{}
+	}
+	cp.cdMay[which][key][id] = true
+	if permanent {
+		if cp.cdMust[which][key] == nil {
+			cp.cdMust[which][key] = map[int64]bool{}
+		}
+		cp.cdMust[which][key][id] = true
+	}
+	cp.cdText[which][id] = [2]string{author, text}
+}
+
+func c14SortedIDs(set map[int64]bool) []int64 {
+	ids := make([]int64, 0, len(set))
+	for id := range set {
+		ids = append(ids, id)
+	}
+	sort.Slice(ids, func(i, j int) bool { return ids[i] < ids[j] })
+
+	return ids
 }
 
 type c14World struct {
@@ -303,6 +386,9 @@ type c14World struct {
 	setGood    [][]int64
 	statsSeen  map[string]bool
 	sumsSeen   map[string]bool
+	listSeen   map[string]bool
+	listBad    [][][]int64
+	listGood   [][][]int64
 	partialRun bool // a scenario with single-row updaters (WaitTrigger clients, timeperiod flips): epochs may differ inside a table
 }
 
@@ -421,6 +507,49 @@ func (w *c14World) newPeer(num int, rnd *vRand) *c14Peer {
 	cp.backend = newVBackend(fmt.Sprintf("c14-%d", num))
 	dataset := vDefaultDataset(rnd, cp.nHosts, cp.nSvcs)
 	cp.nSvcs = len(dataset["services"].Rows)
+	for _, row := range dataset["services"].Rows {
+		cp.svcKeys = append(cp.svcKeys, [2]string{row[0].(string), row[1].(string)})
+	}
+	// comments and downtimes attached to hosts and services from the start (never removed): the first host and the
+	// first service always have both, the others some
+	for which := range 2 {
+		cp.cdMust[which], cp.cdMay[which], cp.cdText[which] = map[string]map[int64]bool{}, map[string]map[int64]bool{}, map[int64][2]string{}
+	}
+	comments, downtimes := dataset["comments"], dataset["downtimes"]
+	comments.Rows, downtimes.Rows = nil, nil
+	next := int64(0)
+	add := func(which int, host, svc string) {
+		next++
+		author, text := "c14", fmt.Sprintf("entry %d", next)
+		cp.attach(which, next, host, svc, author, text, true)
+		if which == 0 {
+			comments.Rows = append(comments.Rows, c14CommentRow(next, host, svc, author, text))
+		} else {
+			downtimes.Rows = append(downtimes.Rows, c14DowntimeRow(next, host, svc, author, text))
+		}
+	}
+	for i := 1; i <= cp.nHosts; i++ {
+		for which := range 2 {
+			n := rnd.intn(3)
+			if i == 1 && n == 0 {
+				n = 1
+			}
+			for ; n > 0; n-- {
+				add(which, fmt.Sprintf("vhost%d", i), "")
+			}
+		}
+	}
+	for i, key := range cp.svcKeys {
+		for which := range 2 {
+			n := rnd.intn(3) - 1
+			if i == 0 && n <= 0 {
+				n = 1
+			}
+			for ; n > 0; n-- {
+				add(which, key[0], key[1])
+			}
+		}
+	}
 	cp.backend.SetDataset(dataset)
 	cp.hver = make([]atomic.Int64, cp.nHosts)
 	cp.sver = make([]atomic.Int64, cp.nSvcs)
@@ -444,8 +573,7 @@ func (w *c14World) newPeer(num int, rnd *vRand) *c14Peer {
 	}
 	cp.gver.Store(1)
 	cp.gen.Store(1)
-	cp.comIDs = []int64{1, 2}
-	cp.downIDs = []int64{1}
+	cp.nextID = 1000
 	cp.peer = vNewPeer(w.lmd, cp.id, []string{cp.backend.Addr()}, nil)
 
 	return cp
@@ -462,6 +590,9 @@ func (w *c14World) mutator(cp *c14Peer, rnd *vRand, wg *sync.WaitGroup) {
 	for time.Now().Before(w.deadline) {
 		kind := vPick(rnd, menu)
 		if w.sc.Epochs && kind == "timeperiod" {
+			kind = "row"
+		}
+		if w.sc.StaticCD && (kind == "comment" || kind == "downtime") {
 			kind = "row"
 		}
 		switch kind {
@@ -495,9 +626,9 @@ func (w *c14World) mutator(cp *c14Peer, rnd *vRand, wg *sync.WaitGroup) {
 				cp.epoch.Store(epoch)
 			})
 		case "comment", "downtime":
-			table, ids := "comments", &cp.comIDs
+			table, ids, which := "comments", &cp.comIDs, 0
 			if kind == "downtime" {
-				table, ids = "downtimes", &cp.downIDs
+				table, ids, which = "downtimes", &cp.downIDs, 1
 			}
 			if len(*ids) > 0 && (len(*ids) > 6 || rnd.chance(1, 2)) {
 				pos := rnd.intn(len(*ids))
@@ -508,8 +639,8 @@ func (w *c14World) mutator(cp *c14Peer, rnd *vRand, wg *sync.WaitGroup) {
 				host := fmt.Sprintf("vhost%d", 1+rnd.intn(cp.nHosts))
 				svc := ""
 				if cp.nSvcs > 0 && rnd.chance(1, 2) {
-					// service j of host i exists when the default dataset gave host i at least j services: use the first one of vhost1
-					host, svc = "vhost1", "vsvc1"
+					key := vPick(rnd, cp.svcKeys)
+					host, svc = key[0], key[1]
 				}
 				isSvc := 0.0
 				if svc != "" {
@@ -517,6 +648,7 @@ func (w *c14World) mutator(cp *c14Peer, rnd *vRand, wg *sync.WaitGroup) {
 				}
 				vals := map[string]interface{}{"id": float64(cp.nextID), "host_name": host, "service_description": svc, "author": "c14",
 					"comment": fmt.Sprintf("entry %d", cp.nextID), "entry_time": float64(1700000000 + cp.nextID), "is_service": isSvc}
+				cp.attach(which, cp.nextID, host, svc, "c14", fmt.Sprintf("entry %d", cp.nextID), false)
 				cp.backend.AddRow(table, vals)
 				*ids = append(*ids, cp.nextID)
 			}
@@ -586,6 +718,15 @@ func (w *c14World) updater(cp *c14Peer, rnd *vRand, wg *sync.WaitGroup) {
 				cp.gen.Store(gen)
 			})
 			_ = peer.InitAllTables(ctx)
+		case "restart":
+			// the core behind the backend restarted: the next update finds another program_start and reloads everything
+			cp.backend.WithLock(func() {
+				tab := cp.backend.Table("status")
+				idx := tab.colIndex("program_start")
+				start, _ := tab.Rows[0][idx].(float64)
+				tab.Rows[0][idx] = start + 1
+			})
+			periodic()
 		case "comments":
 			if data != nil {
 				_ = data.updateDeltaCommentsOrDowntimes(ctx, TableComments)
@@ -620,10 +761,30 @@ func (w *c14World) updater(cp *c14Peer, rnd *vRand, wg *sync.WaitGroup) {
 
 // ---- clients ---------------------------------------------------------------------------------------------
 
+// c14Probe is a request whose column reads a stored table the request does not lock (see c14_gen.go).
+type c14Probe struct {
+	Table    string   `json:"table"`
+	Column   string   `json:"column"`
+	Usage    string   `json:"usage"`
+	Request  string   `json:"request"`
+	Locked   []string `json:"locked"`
+	Unlocked []string `json:"unlocked"` // read, but not locked
+}
+
+func c14ProbeKind(kind string) (int, bool) {
+	if !strings.HasPrefix(kind, "probe") {
+		return 0, false
+	}
+	num, err := strconv.Atoi(kind[len("probe"):])
+
+	return num, err == nil && num >= 0
+}
+
 type c14Query struct {
-	kind   string
-	text   string
-	width  int
+	kind    string
+	text    string
+	variant int
+	width   int
 	bound  int64 // hostsfilter: Filter: latency < bound
 	single bool  // Backends header with exactly one backend
 }
@@ -713,6 +874,29 @@ func (w *c14World) buildQuery(kind string, rnd *vRand) *c14Query {
 		query.text = "GET hosts\nColumns: peer_key name comments comments_with_info downtimes downtimes_with_info services_with_info services_with_state custom_variables\n" +
 			backends + c14Tail
 		query.width = 9
+	case "svclists":
+		query.text = "GET services\nColumns: peer_key host_name description comments comments_with_info downtimes downtimes_with_info " +
+			"host_comments host_comments_with_info host_downtimes host_downtimes_with_info\n" + backends + c14Tail
+		query.width = 11
+	case "comlists", "downlists":
+		table := "comments"
+		if kind == "downlists" {
+			table = "downtimes"
+		}
+		query.text = "GET " + table + "\nColumns: peer_key host_name service_description host_comments host_comments_with_info host_downtimes " +
+			"host_downtimes_with_info service_comments service_comments_with_info service_downtimes service_downtimes_with_info id\n" + backends + c14Tail
+		query.width = 12
+	case "bygrouplists":
+		if rnd.chance(1, 2) {
+			query.variant = 1
+			query.text = "GET hostsbygroup\nColumns: peer_key name hostgroup_name comments comments_with_info downtimes downtimes_with_info\n" + backends + c14Tail
+			query.width = 7
+		} else {
+			table := vPick(rnd, []string{"servicesbyhostgroup", "servicesbygroup"})
+			query.text = "GET " + table + "\nColumns: peer_key host_name description comments comments_with_info downtimes downtimes_with_info " +
+				"host_comments host_comments_with_info host_downtimes host_downtimes_with_info\n" + backends + c14Tail
+			query.width = 11
+		}
 	case "comments", "downtimes":
 		query.text = "GET " + kind + "\nColumns: peer_key id host_name host_alias host_" + c14EpochCol + " " + hstamps + "\n" + backends + c14Tail
 		query.width = 5 + nst
@@ -732,6 +916,13 @@ func (w *c14World) buildQuery(kind string, rnd *vRand) *c14Query {
 		query.text = "GET status\nColumns: peer_key program_start nagios_pid\n" + backends + c14Tail
 		query.width = 3
 	default:
+		if num, ok := c14ProbeKind(kind); ok && w.sc != nil && num < len(w.sc.Probes) {
+			// a request of the lock coverage report: only its shape is checked, the race detector does the rest
+			query.text = strings.TrimRight(w.sc.Probes[num].Request, "\n") + "\n" + backends + c14Tail
+			query.width = -1
+
+			break
+		}
 		panic("c14: unknown client kind " + kind)
 	}
 
@@ -834,7 +1025,7 @@ func (w *c14World) expectedRows(cp *c14Peer, kind string) int {
 	switch kind {
 	case "hosts", "hostsbygroup", "virtcols", "waithost", "waittable", "waitmet":
 		return cp.nHosts
-	case "services", "servicesbygroup", "servicesbyhostgroup", "waitservice", "filterref", "sortref":
+	case "services", "servicesbygroup", "servicesbyhostgroup", "waitservice", "filterref", "sortref", "svclists":
 		return cp.nSvcs
 	case "hostgroups", "servicegroups":
 		return 1
@@ -845,6 +1036,99 @@ func (w *c14World) expectedRows(cp *c14Peer, kind string) int {
 	}
 
 	return -1
+}
+
+// c14ListIDs decodes a served id list (`comments`: numbers) or list with info (`comments_with_info`: [id, author,
+// comment, ...]); details of an entry are compared with the backend's (they never change).
+func (w *c14World) listIDs(cp *c14Peer, which int, val interface{}, withInfo bool, what string) ([]int64, bool) {
+	list, ok := val.([]interface{})
+	if !ok {
+		w.malformed("%s: not a list: %v", what, val)
+
+		return nil, false
+	}
+	set := map[int64]bool{}
+	for _, entry := range list {
+		cell := entry
+		var cells []interface{}
+		if withInfo {
+			cells, ok = entry.([]interface{})
+			if !ok || len(cells) < 3 {
+				w.malformed("%s: entry %v", what, entry)
+
+				return nil, false
+			}
+			cell = cells[0]
+		}
+		id, ok := c14Num(cell)
+		if !ok || set[id] {
+			w.malformed("%s: id %v (not a number or listed twice) in %v", what, cell, val)
+
+			return nil, false
+		}
+		set[id] = true
+		if withInfo {
+			cp.cdMu.Lock()
+			text, known := cp.cdText[which][id]
+			cp.cdMu.Unlock()
+			if known && (cells[1] != text[0] || cells[2] != text[1]) {
+				w.malformed("%s: entry %v, the backend has author %q comment %q", what, entry, text[0], text[1])
+			}
+		}
+	}
+
+	return c14SortedIDs(set), true
+}
+
+// checkLists: cols = comments, comments_with_info, downtimes, downtimes_with_info of the host / service `key`.
+func (w *c14World) checkLists(cp *c14Peer, kind, key string, cols []interface{}) {
+	for pos, val := range cols {
+		which, withInfo := pos/2, pos%2 == 1
+		what := fmt.Sprintf("%s %s/%s column %d", kind, cp.id, key, pos)
+		served, ok := w.listIDs(cp, which, val, withInfo, what)
+		if !ok {
+			continue
+		}
+		cp.cdMu.Lock()
+		must, may := c14SortedIDs(cp.cdMust[which][key]), c14SortedIDs(cp.cdMay[which][key])
+		cp.cdMu.Unlock()
+		w.addListObs(served, must, may, what)
+	}
+}
+
+func c14SubsetIDs(a, b []int64) bool {
+	set := map[int64]bool{}
+	for _, v := range b {
+		set[v] = true
+	}
+	for _, v := range a {
+		if !set[v] {
+			return false
+		}
+	}
+
+	return true
+}
+
+func (w *c14World) addListObs(served, must, may []int64, what string) {
+	w.mu.Lock()
+	defer w.mu.Unlock()
+	w.res.ListTotal++
+	key := c14Key(served) + "|" + c14Key(must) + "|" + c14Key(may)
+	if w.listSeen[key] {
+		return
+	}
+	w.listSeen[key] = true
+	obs := [][]int64{served, must, may}
+	if c14SubsetIDs(must, served) && c14SubsetIDs(served, may) {
+		w.listGood = append(w.listGood, obs)
+
+		return
+	}
+	w.listBad = append(w.listBad, obs)
+	if len(w.res.ListBad) < 8 {
+		w.res.ListBad = append(w.res.ListBad, fmt.Sprintf("%s: served %v, attached the whole time %v, ever attached %v", what, served, must, may))
+	}
 }
 
 //nolint:gocyclo // one check per query kind
@@ -878,11 +1162,18 @@ func (w *c14World) checkAnswer(query *c14Query, code int, body []byte, seen *c14
 		m[key][val] = true
 	}
 	for _, row := range ans.Data {
-		if len(row) != query.width {
+		if query.width >= 0 && len(row) != query.width {
 			w.malformed("%s: row of width %d instead of %d", kind, len(row), query.width)
 
 			return
 		}
+	}
+	if _, isProbe := c14ProbeKind(kind); isProbe {
+		w.mu.Lock()
+		w.res.Responses++
+		w.mu.Unlock()
+
+		return
 	}
 	switch kind {
 	case "stats", "sums", "statsref":
@@ -1054,6 +1345,30 @@ func (w *c14World) checkAnswer(query *c14Query, code int, body []byte, seen *c14
 					w.malformed("%s: column %d is %v", kind, pos, row[pos])
 				}
 			}
+			name, _ := row[1].(string)
+			w.checkLists(cp, kind, name, row[2:6])
+		case "svclists":
+			host, _ := row[1].(string)
+			desc, _ := row[2].(string)
+			w.checkLists(cp, kind, c14CDKey(host, desc), row[3:7])
+			w.checkLists(cp, kind+":host", host, row[7:11])
+		case "comlists", "downlists":
+			host, _ := row[1].(string)
+			desc, _ := row[2].(string)
+			w.checkLists(cp, kind+":host", host, row[3:7])
+			if desc != "" {
+				w.checkLists(cp, kind+":service", c14CDKey(host, desc), row[7:11])
+			}
+		case "bygrouplists":
+			if query.variant == 1 {
+				name, _ := row[1].(string)
+				w.checkLists(cp, kind+":hostsbygroup", name, row[3:7])
+			} else {
+				host, _ := row[1].(string)
+				desc, _ := row[2].(string)
+				w.checkLists(cp, kind, c14CDKey(host, desc), row[3:7])
+				w.checkLists(cp, kind+":host", host, row[7:11])
+			}
 		}
 	}
 	// a backend either failed (and contributes nothing) or contributes its complete table
@@ -1157,7 +1472,7 @@ func c14WorkerMain(args []string) int {
 	InitLogging(&Config{LogLevel: verifEnv("VERIF_LOGLEVEL", "error"), LogFile: "stderr"})
 
 	world := &c14World{sc: sc, ctx: context.Background(), vecSeen: map[string]bool{}, setSeen: map[string]bool{},
-		statsSeen: map[string]bool{}, sumsSeen: map[string]bool{}, res: &c14Result{Hist: map[string]int{}}}
+		statsSeen: map[string]bool{}, sumsSeen: map[string]bool{}, listSeen: map[string]bool{}, res: &c14Result{Hist: map[string]int{}}}
 	for _, kinds := range sc.Clients {
 		for _, kind := range kinds {
 			if c14PartialKinds[kind] {
@@ -1289,6 +1604,16 @@ func (w *c14World) writeResult(path string) {
 			break
 		}
 		res.SetVecs = append(res.SetVecs, vec)
+	}
+	res.ListObs = append([][][]int64{}, w.listBad...)
+	if len(res.ListObs) > 60 {
+		res.ListObs = res.ListObs[:60]
+	}
+	for _, obs := range w.listGood {
+		if len(res.ListObs) >= capVecs {
+			break
+		}
+		res.ListObs = append(res.ListObs, obs)
 	}
 	buf, err := json.MarshalIndent(res, "", " ")
 	if err != nil {
